@@ -208,7 +208,9 @@ func (b *assignmentBuilder) structFieldAndStructGettersAndFields(lhs bmodel.Node
 				a = nestStruct
 			}
 		}
-		return true
+		// A same-named candidate that does not fit does not end the search: under
+		// :case:off another candidate may bear the name.
+		return a != nil || err != nil || nested
 	}
 
 	if opts.Getter && opts.Rule == gmodel.MatchRuleName {
